@@ -7,7 +7,7 @@
 From Coq Require Import List NArith ZArith QArith Bool Arith Lia Permutation.
 Import ListNotations.
 From FP Require Import Lin Blocks BlocksProofs PathEnc PathEncProofs Euler EulerProofs1 EulerProofs4 WalkDecode WfCheck
-                       WalkEncRows WalkEncRowsProofs WalkErrEnc WalkErrEncProofs.
+                       WalkEncRows WalkEncRowsProofs WalkErrEnc WalkErrEncProofs WalkTree WalkEncComplete WalkEncIff.
 Set Default Timeout 60.
 Local Close Scope Q_scope.
 
@@ -84,7 +84,29 @@ Theorem kmpec_sound_checked (I : werr_inst) (a : var -> Q) :
   (objective a (encode_kmpe_cycles I) == sumq (fun i => a (Slack i)) (layers k))%Q.
 Proof. intros G k E s t Hb. exact (kmpec_sound I a (wf_stg_b_sound G Hb)). Qed.
 
+(* the sequences handed over by the implementation (subset constraints incl. the appended safe sequences, walks_to_fix)
+   consist of edges of the graph *)
+Definition winputs_ok_b (WI : walk_inst) : bool :=
+  forallb (fun c => forallb (fun e => mem_edge e (g_edges (w_graph WI))) c) (all_cons WI) &&
+  forallb (fun c => forallb (fun e => mem_edge e (g_edges (w_graph WI))) c) (w_fix WI).
+
+Lemma winputs_ok_b_sound (I : kfdc_inst) : winputs_ok_b (kfdc_walk I) = true -> inputs_ok I.
+Proof.
+  unfold winputs_ok_b, inputs_ok. intros H. apply andb_true_iff in H. destruct H as [H1 H2].
+  rewrite forallb_forall in H1, H2. split.
+  - intros c e Hc He. specialize (H1 c Hc). rewrite forallb_forall in H1. apply WalkEncRowsProofs.mem_edge_In. apply (H1 e He).
+  - intros w e Hw He. specialize (H2 w Hw). rewrite forallb_forall in H2. apply WalkEncRowsProofs.mem_edge_In. apply (H2 e He).
+Qed.
+
+(* C04: feasibility of the LP characterised, premises decided by the extracted checkers *)
+Theorem kfdc_feasible_iff_checked (I : kfdc_inst) :
+  wf_stg_b (c_graph I) = true -> winputs_ok_b (kfdc_walk I) = true -> o_allow_empty (c_opts I) = false ->
+  ((exists a, sat a (encode_kfdc I)) <-> (exists P wt, admissible I P wt)).
+Proof.
+  intros H1 H2 Hae. apply kfdc_feasible_iff_within_caps; [apply wf_stg_b_sound; exact H1|exact Hae|apply winputs_ok_b_sound; exact H2].
+Qed.
+
 (* non-vacuity: the checker accepts the self-loop graph of WalkExamples *)
 From FP Require Import WalkExamples.
-Example wf_stg_b_accepts_loopG : wf_stg_b loopG = true.
-Proof. vm_compute. reflexivity. Qed.
+Example wf_stg_b_accepts_loopG : wf_stg_b loopG = true /\ winputs_ok_b (kfdc_walk (loop_inst 2)) = true.
+Proof. split; vm_compute; reflexivity. Qed.
